@@ -19,7 +19,9 @@ INT_RANGE = {
 }
 STRINGS = ["", "a", "héllo", "\0", "a\0b", "<>,", "mapping<string,UUID>",
            "日本語", "𝔘𝔫𝔦", "\U0010ffff", "é" * 40, "x" * 300, " ", "\n",
-           "ࠀ߿￿", "a,b<c>"]
+           "ࠀ߿￿", "a,b<c>",
+           # byte order mark: an ordinary character of a string
+           "\ufeff", "\ufeffabc", "a\ufeffb", "\ufeff\ufeff"]
 F64_BITS = [0, 1 << 63, 0x7ff0000000000000, 0xfff0000000000000,
             0x7ff8000000000000, 0x7ff0000000000001, 0xfff8000000000123,
             0x3ff0000000000000, 0x0000000000000001, 0x000fffffffffffff,
